@@ -1420,6 +1420,8 @@ class Interp:
         """class of the object a dotted receiver path denotes, from the rule's types for its root and the constructors in the source"""
         if text in self.types:
             return self.types[text]
+        if "." not in text and self.idx.has_cls(text) and len(self.idx.classes[text]) == 1:
+            return text   # the class itself (a class or static method called on it)
         parts = text.split(".")
         for i in range(len(parts) - 1, 0, -1):
             root = ".".join(parts[:i])
